@@ -39,6 +39,11 @@ def _scenario(draw, feedback=False):
     fl["exon_ids"] = src.bool(0.4)
     if fl["exon_ids"]:
         fl["exon_id_fmt"] = src.choice(["E%d", "%d", "{chr}.%d", "ENSE%05d"])
+        if src.bool(0.4):
+            # GENCODE style: per-transcript ids for exons with the same coordinates, CDS records repeating the exon's id
+            fl["exon_ids_per_transcript"] = True
+            fl["cds"] = True
+            fl["cds_exon_ids"] = True
     if src.bool(0.4):
         # reference ids that imitate IsoQuant's own
         n = 0
@@ -88,8 +93,26 @@ def _check_outputs(res, sc, ref_ids, ctx, case, tag=""):
     gt = {"transcript_models": parse.gtf(mg)}
     if eg:
         gt["extended_annotation"] = parse.gtf(eg)
-    for sig, det in gtfcheck.check_ids(gt, sc, ref_ids):
+    for sig, det in gtfcheck.check_ids(gt, sc, ref_ids if not (sc.get("gtf") or {}).get("exon_ids_per_transcript") else None):
+        if (sc.get("gtf") or {}).get("exon_ids_per_transcript") and sig.startswith("C17:exon-id-not-a-function"):
+            continue          # the reference itself has two ids for one exon: only the clauses below apply
         ctx.violation(sig + tag, det, case)
+    if (sc.get("gtf") or {}).get("exon_ids") and res.paths.get("gtf"):
+        # an exon_id of the reference - on a record of any type - never names other coordinates in the output
+        owner = {}
+        for rec in parse.gtf(res.paths["gtf"])["lines"]:
+            if "exon_id" in rec["attrs"]:
+                owner.setdefault(rec["attrs"]["exon_id"], set()).add((rec["chr"], rec["start"], rec["end"],
+                                                                      rec["strand"]))
+        for name, g_ in gt.items():
+            for rec in g_["lines"]:
+                eid = rec["attrs"].get("exon_id")
+                key = (rec["chr"], rec["start"], rec["end"], rec["strand"])
+                if eid in owner and key not in owner[eid]:
+                    ctx.violation("C17:exon-id-of-the-reference-names-other-coordinates" + tag,
+                                  {"file": name, "id": eid, "type": rec["type"], "now": key,
+                                   "in_reference": sorted(owner[eid])[:3]}, case)
+                    break
     # classification
     novel = [t for t in gt["transcript_models"]["transcripts"] if t not in gtfcheck.ref_table(sc)]
     seen = {}
